@@ -225,8 +225,12 @@ func (server *SugarDB) setValues(ctx context.Context, entries map[string]interfa
 
 	for key, value := range entries {
 		expireAt := time.Time{}
-		if _, ok := server.store[database][key]; ok {
-			expireAt = server.store[database][key].ExpireAt
+		if entry, ok := server.store[database][key]; ok {
+			expireAt = entry.ExpireAt
+			// An entry that has already expired is gone: the new value does not inherit its deadline.
+			if expireAt != (time.Time{}) && expireAt.Before(server.clock.Now()) {
+				expireAt = time.Time{}
+			}
 		}
 		server.store[database][key] = internal.KeyData{
 			Value:    value,
